@@ -89,9 +89,26 @@ def all_of_merge_rule(cx, rep, rid):
         rep.ob(rid, "all_of/collision-compares-stored-values", ok,
                "Runtype::all_of merges object members with last-writer-wins; the collision test must compare the stored property values themselves (optionality included), found comparisons %s: members that differ in what is not compared are merged in source order, so `A & B` and `B & A` yield different validators" % (
                    [(c["l"].get("ty"), c["l"]["k"], c["r"]["k"]) for c in allc]), ao[0].loc(), sample={"comparisons": len(cmps)})
-        ext = [n for n in walk(tree["body"]) if n["k"] == "MethodCall" and n["method"] in ("extend", "insert", "push") and "obj_kvs" in locals_in(n["recv"])]
+        # the accumulated member list, by type (a collection of (key, Optionality<Runtype>) pairs)
+        ext = [n for n in walk(tree["body"]) if n["k"] == "MethodCall" and n["method"] in ("extend", "insert", "push")
+               and "Optionality<" in (n.get("recv_ty") or "") and any(x["k"] == "Path" and x.get("res") == "local" for x in walk(n["recv"]))]
         early = [n for n in walk(tree["body"]) if n["k"] == "Ret"]
-        rep.ob(rid, "all_of/conflict-keeps-intersection", len(ext) >= 1 and len(early) >= 1 and any("AllOf" in (x.get("def") or "") for r in early for x in walk(r) if x["k"] in ("Call", "Path")),
+
+        def builds_all_of(e, depth=0):
+            """the expression constructs RuntypeKind::AllOf, directly or through a private constructor helper that
+            does nothing but build it (no object merge inside)"""
+            for x in walk(e):
+                if x["k"] in ("Call", "Path") and "RuntypeKind::AllOf" in (x.get("def") or x.get("callee") or ""):
+                    return True
+                if x["k"] in ("Call", "MethodCall") and depth < 2:
+                    g = F._callee_gid(ao[0].crate, x.get("callee") or "")
+                    if g in F.hir and g != ao[0].id and (F.fns[g].impl_self == RT):
+                        body = F.hir[g]["body"]
+                        merges = any(y["k"] in ("Call", "Path") and re.search(r"Runtype::object$|RuntypeKind::Object$", y.get("def") or y.get("callee") or "") for y in walk(body))
+                        if not merges and builds_all_of(body, depth + 1):
+                            return True
+            return False
+        rep.ob(rid, "all_of/conflict-keeps-intersection", len(ext) >= 1 and len(early) >= 1 and any(builds_all_of(r) for r in early),
                "on a collision all_of must keep the members as an (order-free) AllOf set instead of merging", ao[0].loc())
 
 
